@@ -73,6 +73,9 @@ def shapes : List Shape :=
     -- a typed nil pointer published as an event (the method does not touch the receiver)
     ⟨true, .pointer, "main.NPtr", "nptr.v1", "nptr.v1"⟩,
     -- on the SQLite store: a custom name that looks like a number, and a plain pointer type
-    ⟨false, .value, "main.NNum", "0042", "0042"⟩, ⟨true, .none, "main.NPlain", "", ""⟩ ]
+    ⟨false, .value, "main.NNum", "0042", "0042"⟩, ⟨true, .none, "main.NPlain", "", ""⟩,
+    -- named non-struct event types (an integer, a slice, a map) with a custom name
+    ⟨false, .value, "main.NTick", "ntick.v1", "ntick.v1"⟩, ⟨false, .value, "main.NBatch", "nbatch.v1", "nbatch.v1"⟩,
+    ⟨false, .value, "main.NMap", "nmap.v1", "nmap.v1"⟩ ]
 
 end Ebu.TypeName
